@@ -140,3 +140,22 @@ Proof. vm_compute. split; reflexivity. Qed.
 Example ex_sched_agrees :
   IdleFair.sched_of_rounds [[1; 2; 0]; [3; 4]] 1 [(3, 0%N); (4, 0%N)] = [3; 4].
 Proof. reflexivity. Qed.
+
+(** hypotheses of the coupling theorems: the initial states are coupled, [ex2_prog] is flat *)
+From ApiFu Require Idle.IdleJoint Fut.ExecAsync.
+Example ex_K0 : IdleJoint.K ExecAsync.st0 init.
+Proof.
+  constructor; simpl.
+  - intros i pr N. destruct i; discriminate.
+  - intro w. split; [discriminate|intro H; inversion H].
+  - intros w pr N. destruct w; discriminate.
+  - intro w. split; [intros [ok []]|congruence].
+Qed.
+
+Example ex2_flat : IdleJoint.flat_async ex2_prog.
+Proof.
+  intros w it L. destruct w as [|[|w]]; simpl in L.
+  - inversion L; auto.
+  - inversion L; auto.
+  - unfold lookup in L. simpl in L. destruct w; discriminate.
+Qed.
